@@ -1,8 +1,18 @@
 """Translator for C08: regenerates lean/FordModel/Generated/C08.lean from the working tree.
 
-G1  intrinsics : ford.intrinsics.INTRINSICS (imported from REPO)
+G1  intrinsics : the names `_add_procedure_calls` never records - derived by PROBING the real
+                 method on a stub container with every candidate name (round 5; before: the literal
+                 `ford.intrinsics.INTRINSICS`).  Candidates: every string of every sizeable string
+                 collection bound in ford.intrinsics / ford.sourceform, the names of the specification
+                 (lean/FordModel/Spec/CallsNames.lean) and the harness' name pools.  One-word names,
+                 sorted: the spelling, order, container type and name of the table do not matter.
 G4  cascade    : the ordered (branch name, guard) list of the if/elif chain in
-                 FortranContainer.__init__ (ast walk of ford/sourceform.py)
+                 FortranContainer.__init__ (ast walk of ford/sourceform.py).  Round 5: read after
+                 alpha-renaming the locals by their ROLE (loop variable, its lower-cased copy, the
+                 BLOCK nesting counter, the CONTAINS flag, the Associations object), with literal
+                 tables resolved to the constants they are bound to, names bound once in the loop
+                 body replaced by their definition, and boolean wrappers (`is not None`, `bool(..)`,
+                 `:=`) removed.
 G10 guards     : for the branches whose test is one boolean `self.X.match(line)` /
                  `self.X.search(line)` and which the property says must never be scanned
                  (INTERPRETED below): the method used at the call site and the parse tree of
@@ -11,13 +21,16 @@ G10 guards     : for the branches whose test is one boolean `self.X.match(line)`
 
 G11 scope     : what decides, for a name that ends a recorded chain of length 1, whether
                  `correlate()` removes it as "a variable" (round 4):
-                 * `scopeFilter`  - the comprehension in `FortranCodeUnit._cleanup` that drops the
-                   entities with the EXTERNAL attribute from `self.variables`: the keyword and the
-                   normalisation applied to each attribute before the comparison (ast);
+                 * `scopeFilter`  - which entities `FortranCodeUnit._cleanup` drops from
+                   `self.variables`: the keyword and the normalisation applied to each attribute
+                   before the comparison.  Round 5: derived by PROBING the real `_cleanup` on stub
+                   variables (one attribute spelling each); before: ast of the comprehension;
                  * `labelOrder`   - the order in which `_find_chain_item.get_label_item` merges the
-                   name tables of a scope (`labels.update(...)`; the later wins);
-                 * `removedKinds` - the classes in the `isinstance(item, (...))` test of the loop
-                   "Match up called procedures" in `FortranCodeUnit.correlate`.
+                   name tables of a scope (the later wins).  Round 5: derived by PROBING the real
+                   `_find_chain_item` on stub scopes that hold the same label in two tables;
+                 * `removedKinds` - the classes whose instances `correlate` removes from `calls`.
+                   Round 5: derived by PROBING a real `Project` on a ten-line source that references
+                   one entity of every class `_find_chain_item` can return.
 
 A construct that cannot be found raises (= "tie broken", never a pass).
 """
@@ -42,22 +55,86 @@ def lean_str(s: str) -> str:
     return '"' + s.replace("\\", "\\\\").replace('"', '\\"') + '"'
 
 
-def get_intrinsics() -> list[str]:
+SPEC_NAMES_FILE = common.LEAN / "FordModel" / "Spec" / "CallsNames.lean"
+
+
+def spec_names() -> list[str]:
+    """the pinned specification `Ford.CallsSpec.neverRecorded` (hand-kept Lean list; read, never written)"""
+    txt = SPEC_NAMES_FILE.read_text()
+    body = txt[txt.index("def neverRecorded"):]
+    body = body[body.index(":=") + 2:]
+    body = body[:body.index("]") + 1]
+    names = re.findall(r'chars!\s*"([^"]*)"', body)
+    if len(names) < 50:
+        raise ValueError("Spec/CallsNames.lean: neverRecorded could not be read")
+    return names
+
+
+def _string_tables(mod) -> dict[str, list[str]]:
+    """every sizeable collection of strings bound at module level (the deny-list, however it is
+    named, typed or copied)"""
+    out = {}
+    for k, v in vars(mod).items():
+        if isinstance(v, (list, tuple, set, frozenset)) and len(v) >= 50 and all(isinstance(x, str) for x in v):
+            out[k] = list(v)
+    return out
+
+
+def probe_never_recorded(candidates) -> list[str]:
+    """One-word names (lower case) that the real `FortranContainer._add_procedure_calls` does not
+    record - as a function reference `x = n(1)`, as `call n(1)` and as `call n` alike."""
     common.import_ford()
-    mod = importlib.import_module("ford.intrinsics")
-    mod = importlib.reload(mod)
-    table = getattr(mod, "INTRINSICS")
-    if not isinstance(table, (list, tuple, set, frozenset)) or len(table) < 50:
-        raise ValueError("ford.intrinsics.INTRINSICS is not a sizeable collection")
-    table = list(table) if isinstance(table, (list, tuple)) else sorted(table)
-    if not all(isinstance(x, str) for x in table):
-        raise ValueError("INTRINSICS has non-string entries")
-    # what `_add_procedure_calls` really tests against
     sf = importlib.import_module("ford.sourceform")
-    used = getattr(sf, "INTRINSICS")
-    if list(used) != list(table) and sorted(used) != sorted(table):
-        raise ValueError("ford.sourceform.INTRINSICS is not ford.intrinsics.INTRINSICS")
-    return table
+
+    class Probe(sf.FortranContainer):          # a container with a `calls` list and nothing else
+        def __init__(self):
+            self.calls = []
+
+    def recorded(stmt: str):
+        pr = Probe()
+        pr._add_procedure_calls(stmt)
+        return pr.calls
+
+    # the probe itself must work: an ordinary identifier is recorded, exactly once, lower-cased
+    for stmt in ("x = Zq_probe(1)", "call zq_probe(1)", "call zq_probe"):
+        if recorded(stmt) != [["zq_probe"]]:
+            raise ValueError(f"probing _add_procedure_calls: {stmt!r} records {recorded(stmt)!r}")
+    out = []
+    for n in sorted({c.lower() for c in candidates if re.fullmatch(r"[A-Za-z_]\w*", c)}):
+        seen = [recorded(f"x = {n}(1)") == [[n]], recorded(f"call {n}(1)") == [[n]], recorded(f"call {n}") == [[n]],
+                recorded(f"x = {n.upper()} (1)") == [[n]]]
+        if all(seen):
+            continue
+        if any(seen):
+            raise ValueError(f"probing _add_procedure_calls: the name {n!r} is filtered in some statement forms only: {seen}")
+        out.append(n)
+    return out
+
+
+def get_intrinsics(extra_candidates=()) -> tuple[list[str], dict]:
+    """(names never recorded, info).  The deny-list is read off the behaviour of the real method,
+    not off a table: the candidates are every string of every sizeable string collection of
+    ford.intrinsics / ford.sourceform, the specified names and `extra_candidates`."""
+    common.import_ford()
+    tables = {}
+    for modname in ("ford.intrinsics", "ford.sourceform"):
+        try:
+            mod = importlib.import_module(modname)
+        except ImportError:
+            continue
+        for k, v in _string_tables(mod).items():
+            tables[f"{modname}.{k}"] = v
+    cands = set(spec_names()) | set(extra_candidates)
+    for v in tables.values():
+        cands |= set(v)
+    never = probe_never_recorded(cands)
+    if len(never) < 50:
+        raise ValueError(f"only {len(never)} names are never recorded: the intrinsic / keyword filter of "
+                         "_add_procedure_calls is gone")
+    entries = {x.lower() for v in tables.values() for x in v}
+    inert = sorted(x for x in entries if not re.fullmatch(r"[A-Za-z_]\w*", x))
+    return never, {"tables": {k: len(v) for k, v in sorted(tables.items())}, "candidates": len(cands),
+                   "inert_entries": inert}
 
 
 def _regex_calls(node: ast.AST) -> list[str]:
@@ -72,21 +149,92 @@ def _regex_calls(node: ast.AST) -> list[str]:
     return out
 
 
-def _guard(test: ast.AST) -> str:
+# ---- reading the cascade by meaning: roles of the locals, constants, wrappers
+
+class _Rename(ast.NodeTransformer):
+    def __init__(self, mapping):
+        self.mapping = mapping
+
+    def visit_Name(self, node):
+        return ast.copy_location(ast.Name(id=self.mapping.get(node.id, node.id), ctx=node.ctx), node)
+
+
+def _unwrap_bool(t: ast.AST) -> ast.AST:
+    """strip what does not change the truth value of a match object: `(m := X)`, `X is not None`,
+    `X != None`, `bool(X)`, `not not X`"""
+    while True:
+        if isinstance(t, ast.NamedExpr):
+            t = t.value
+        elif (isinstance(t, ast.Compare) and len(t.ops) == 1 and isinstance(t.ops[0], (ast.IsNot, ast.NotEq))
+              and isinstance(t.comparators[0], ast.Constant) and t.comparators[0].value is None):
+            t = t.left
+        elif (isinstance(t, ast.Call) and isinstance(t.func, ast.Name) and t.func.id == "bool"
+              and len(t.args) == 1 and not t.keywords):
+            t = t.args[0]
+        elif (isinstance(t, ast.UnaryOp) and isinstance(t.op, ast.Not) and isinstance(t.operand, ast.UnaryOp)
+              and isinstance(t.operand.op, ast.Not)):
+            t = t.operand.operand
+        else:
+            return t
+
+
+def _const_strings(node: ast.AST) -> list[str] | None:
+    """the strings of a literal collection, or of the module / class constant a name is bound to"""
+    if isinstance(node, (ast.List, ast.Tuple, ast.Set)):
+        if all(isinstance(e, ast.Constant) and isinstance(e.value, str) for e in node.elts):
+            return [e.value for e in node.elts]
+        return None
+    common.import_ford()
+    sf = importlib.import_module("ford.sourceform")
+    val = None
+    if isinstance(node, ast.Name):
+        val = getattr(sf, node.id, None)
+    elif isinstance(node, ast.Attribute) and isinstance(node.value, ast.Name) and node.value.id == "self":
+        val = getattr(getattr(sf, "FortranContainer"), node.attr, None)
+    elif (isinstance(node, ast.Call) and isinstance(node.func, ast.Name) and node.func.id in ("frozenset", "set", "tuple", "list")
+          and len(node.args) == 1 and not node.keywords):
+        return _const_strings(node.args[0])
+    if isinstance(val, (list, tuple, set, frozenset)) and all(isinstance(x, str) for x in val):
+        return list(val)
+    return None
+
+
+def _conjuncts(test: ast.AST) -> list[ast.AST]:
     if isinstance(test, ast.BoolOp) and isinstance(test.op, ast.And):
-        extras = []
-        for v in test.values:
-            if _regex_calls(v):
-                continue
-            src = ast.unparse(v)
-            if src == "blocklevel == 0":
-                extras.append("blocklevel0")
-            elif src == "incontains":
-                extras.append("incontains")
-            else:
-                extras.append("other:" + src)
-        return "&".join(extras)
-    return ""
+        return [c for v in test.values for c in _conjuncts(v)]
+    return [test]
+
+
+def _is_zero_test(v: ast.AST, name: str) -> bool:
+    """`name == 0`, `0 == name`, `not name` (exact equivalents for an integer)"""
+    if isinstance(v, ast.UnaryOp) and isinstance(v.op, ast.Not):
+        return isinstance(v.operand, ast.Name) and v.operand.id == name
+    if isinstance(v, ast.Compare) and len(v.ops) == 1 and isinstance(v.ops[0], ast.Eq):
+        a, b = v.left, v.comparators[0]
+        for x, y in ((a, b), (b, a)):
+            if isinstance(x, ast.Name) and x.id == name and isinstance(y, ast.Constant) and y.value == 0 \
+                    and not isinstance(y.value, bool):
+                return True
+    return False
+
+
+def _guard(test: ast.AST) -> str:
+    """the conjuncts of a branch test that are not the regex test itself (after renaming)"""
+    conj = _conjuncts(test)
+    if len(conj) == 1:
+        return ""
+    extras = []
+    for v in conj:
+        if _regex_calls(v):
+            continue
+        v = _unwrap_bool(v)
+        if _is_zero_test(v, "blocklevel"):
+            extras.append("blocklevel0")
+        elif isinstance(v, ast.Name) and v.id == "incontains":
+            extras.append("incontains")
+        else:
+            extras.append("other")          # any other condition: never true inside the modelled domain
+    return "&".join(extras)
 
 
 def _branch_name(test: ast.AST) -> str:
@@ -98,17 +246,51 @@ def _branch_name(test: ast.AST) -> str:
             if n not in seen:
                 seen.append(n)
         return "|".join(seen)
-    if isinstance(test, ast.Compare) and isinstance(test.left, ast.Name) and test.left.id == "line_lower":
-        op = test.ops[0]
-        comp = test.comparators[0]
-        if isinstance(op, ast.Eq) and isinstance(comp, ast.Constant):
-            return f"eq:{comp.value}"
-        if isinstance(op, ast.In) and isinstance(comp, (ast.List, ast.Tuple)):
-            return "in:" + ",".join(str(e.value) for e in comp.elts)
+    t = _unwrap_bool(test)
+    if isinstance(t, ast.Compare) and len(t.ops) == 1:
+        op, a, b = t.ops[0], t.left, t.comparators[0]
+        if isinstance(op, ast.Eq):
+            for x, y in ((a, b), (b, a)):
+                if isinstance(x, ast.Name) and x.id == "line_lower" and isinstance(y, ast.Constant) and isinstance(y.value, str):
+                    return f"eq:{y.value}"
+        if isinstance(op, ast.In) and isinstance(a, ast.Name) and a.id == "line_lower":
+            vals = _const_strings(b)
+            if vals is not None:
+                # membership does not depend on order or container type
+                return "in:" + ",".join(sorted(set(vals)))
     return "expr:" + ast.unparse(test)
 
 
-def get_cascade() -> list[tuple[str, str]]:
+def _chain(top: ast.If) -> tuple[list[ast.If], bool]:
+    branches, node = [], top
+    while True:
+        branches.append(node)
+        if len(node.orelse) == 1 and isinstance(node.orelse[0], ast.If):
+            node = node.orelse[0]
+        else:
+            return branches, bool(node.orelse)
+
+
+def _assigned_names(stmts, pred) -> list[str]:
+    out = []
+    for st in stmts:
+        for n in ast.walk(st):
+            nm = pred(n)
+            if nm and nm not in out:
+                out.append(nm)
+    return out
+
+
+def _cascade_ast() -> list[ast.If]:
+    """The branches of the cascade (ast.If nodes, source order) of the statement loop of
+    `FortranContainer.__init__`, with the locals renamed by role:
+      line         the loop variable
+      line_lower   the local bound to `<loop variable>.lower()` in the loop body
+      blocklevel   the local incremented in the branch guarded by BLOCK_RE
+      incontains   the local set to True in the branch taken by the statement `contains`
+      associations the local bound to `Associations()` before the loop
+    and names that are bound exactly once, at the top level of the loop body before the cascade,
+    to an expression replaced by that expression."""
     path = common.REPO / "ford" / "sourceform.py"
     tree = ast.parse(path.read_text())
     cls = next((n for n in tree.body if isinstance(n, ast.ClassDef) and n.name == "FortranContainer"), None)
@@ -117,32 +299,118 @@ def get_cascade() -> list[tuple[str, str]]:
     init = next((n for n in cls.body if isinstance(n, ast.FunctionDef) and n.name == "__init__"), None)
     if init is None:
         raise ValueError("FortranContainer.__init__ not found")
-    loop = next((n for n in init.body if isinstance(n, ast.For)
-                 and isinstance(n.target, ast.Name) and n.target.id == "line"), None)
-    if loop is None:
-        raise ValueError("`for line in source` loop not found")
-    # the cascade is the top-level `if` of the loop whose elif chain contains CALL_RE
-    casc = None
-    for top in [n for n in loop.body if isinstance(n, ast.If)]:
-        branches = []
-        node = top
-        while True:
-            branches.append(node)
-            if len(node.orelse) == 1 and isinstance(node.orelse[0], ast.If):
-                node = node.orelse[0]
-            else:
-                break
-        if any("CALL_RE" in _regex_calls(b.test) for b in branches):
-            casc = branches
-            if node.orelse:
-                raise ValueError("the cascade has a final `else` branch (structure changed)")
+    found = None
+    for loop in [n for n in ast.walk(init) if isinstance(n, ast.For) and isinstance(n.target, ast.Name)]:
+        for top in [n for n in loop.body if isinstance(n, ast.If)]:
+            branches, has_else = _chain(top)
+            if any("CALL_RE" in _regex_calls(b.test) for b in branches):
+                if has_else:
+                    raise ValueError("the cascade has a final `else` branch (structure changed)")
+                if found is not None:
+                    raise ValueError("two statement loops with a CALL_RE cascade")
+                found = (loop, top, branches)
+    if found is None:
+        raise ValueError("statement loop with an if/elif cascade containing CALL_RE not found")
+    loop, top, branches = found
+    mapping = {loop.target.id: "line"}
+    before = loop.body[:loop.body.index(top)]
+    # line_lower
+    lows = _assigned_names(before, lambda n: (
+        n.targets[0].id if isinstance(n, ast.Assign) and len(n.targets) == 1 and isinstance(n.targets[0], ast.Name)
+        and isinstance(n.value, ast.Call) and isinstance(n.value.func, ast.Attribute) and n.value.func.attr in ("lower", "casefold")
+        and isinstance(n.value.func.value, ast.Name) and n.value.func.value.id == loop.target.id and not n.value.args else None))
+    if len(lows) != 1:
+        raise ValueError(f"the lower-cased copy of the statement is not a single local: {lows}")
+    mapping[lows[0]] = "line_lower"
+    # blocklevel: incremented where BLOCK_RE alone decides
+    blk = [b for b in branches if _regex_calls(b.test) == ["BLOCK_RE"]]
+    if len(blk) != 1:
+        raise ValueError("no single branch guarded by BLOCK_RE")
+    incs = _assigned_names(blk[0].body, lambda n: (
+        n.target.id if isinstance(n, ast.AugAssign) and isinstance(n.op, ast.Add) and isinstance(n.target, ast.Name) else
+        n.targets[0].id if isinstance(n, ast.Assign) and len(n.targets) == 1 and isinstance(n.targets[0], ast.Name)
+        and isinstance(n.value, ast.BinOp) and isinstance(n.value.op, ast.Add) else None))
+    if len(incs) != 1:
+        raise ValueError(f"the BLOCK branch does not increment a single nesting counter: {incs}")
+    mapping[incs[0]] = "blocklevel"
+    # associations: bound to Associations() before the loop
+    assoc = _assigned_names(init.body, lambda n: (
+        n.targets[0].id if isinstance(n, ast.Assign) and len(n.targets) == 1 and isinstance(n.targets[0], ast.Name)
+        and isinstance(n.value, ast.Call) and isinstance(n.value.func, ast.Name) and n.value.func.id == "Associations" else None))
+    if len(assoc) == 1:
+        mapping[assoc[0]] = "associations"
+    # incontains: set to True in the first branch whose test mentions neither a regex nor anything
+    # but the lower-cased statement compared with "contains"
+    pre = _Rename(dict(mapping))
+    for b in branches:
+        t = pre.visit(ast.parse(ast.unparse(b.test), mode="eval").body)
+        if _branch_name(t) == "eq:contains":
+            flags = _assigned_names(b.body, lambda n: (
+                n.targets[0].id if isinstance(n, ast.Assign) and len(n.targets) == 1 and isinstance(n.targets[0], ast.Name)
+                and isinstance(n.value, ast.Constant) and n.value.value is True else None))
+            flags = [f for f in flags if f not in mapping]
+            # the flag is the one that is also *read* in a guard of the cascade
+            used = {n.id for bb in branches for n in ast.walk(bb.test) if isinstance(n, ast.Name)}
+            flags = [f for f in flags if f in used]
+            if len(flags) == 1:
+                mapping[flags[0]] = "incontains"
             break
-    if casc is None:
-        raise ValueError("if/elif cascade with CALL_RE not found")
+    if len(set(mapping.values())) != len(mapping):
+        raise ValueError(f"roles of the locals of the statement loop are ambiguous: {mapping}")
+    # definitions bound once at the top of the loop body: replaced by their value in the tests
+    defs = {}
+    counts = {}
+    for n in ast.walk(loop):
+        if isinstance(n, (ast.Assign, ast.AugAssign, ast.NamedExpr, ast.AnnAssign)):
+            tg = n.targets if isinstance(n, ast.Assign) else [n.target]
+            for t_ in tg:
+                for nn in ast.walk(t_):
+                    if isinstance(nn, ast.Name):
+                        counts[nn.id] = counts.get(nn.id, 0) + 1
+    for st in before:
+        if isinstance(st, ast.Assign) and len(st.targets) == 1 and isinstance(st.targets[0], ast.Name):
+            nm = st.targets[0].id
+            if counts.get(nm) == 1 and nm not in mapping:
+                defs[nm] = st.value
+
+    class Subst(ast.NodeTransformer):
+        def visit_Name(self, node):
+            if isinstance(node.ctx, ast.Load) and node.id in defs:
+                return self.visit(ast.parse(ast.unparse(defs[node.id]), mode="eval").body)
+            return node
+
+    out = []
+    ren = _Rename(mapping)
+    for b in branches:
+        nb = ast.parse(ast.unparse(b)).body[0]          # a private copy
+        nb.orelse = []
+        nb.test = Subst().visit(nb.test)
+        nb = ast.fix_missing_locations(ren.visit(nb))
+        out.append(nb)
+    return out
+
+
+def _calls_scanner(branch: ast.If) -> bool:
+    """does the branch hand the statement and the associations to `_add_procedure_calls`?"""
+    for n in ast.walk(branch):
+        if (isinstance(n, ast.Call) and isinstance(n.func, ast.Attribute) and n.func.attr == "_add_procedure_calls"
+                and isinstance(n.func.value, ast.Name) and n.func.value.id == "self"):
+            args = list(n.args)
+            kws = {k.arg: k.value for k in n.keywords}
+            first = args[0] if args else kws.get("line")
+            second = args[1] if len(args) > 1 else kws.get("associations")
+            if (isinstance(first, ast.Name) and first.id == "line"
+                    and isinstance(second, ast.Name) and second.id == "associations"):
+                return True
+    return False
+
+
+def get_cascade() -> list[tuple[str, str]]:
+    casc = _cascade_ast()
     out = [(_branch_name(b.test), _guard(b.test)) for b in casc]
     # what the CALL branch does must still be `_add_procedure_calls(line, associations)`
     call_branch = next(b for b in casc if "CALL_RE" in _regex_calls(b.test))
-    if "_add_procedure_calls(line, associations)" not in ast.unparse(call_branch):
+    if not _calls_scanner(call_branch):
         raise ValueError("CALL branch no longer calls _add_procedure_calls(line, associations)")
     return out
 
@@ -156,24 +424,17 @@ INTERPRETED = ("FORMAT_RE", "ARITH_GOTO_RE")
 
 
 def _branch_tests() -> dict[str, ast.AST]:
-    """branch name -> test expression of that branch of the cascade"""
-    path = common.REPO / "ford" / "sourceform.py"
-    tree = ast.parse(path.read_text())
-    cls = next(n for n in tree.body if isinstance(n, ast.ClassDef) and n.name == "FortranContainer")
-    init = next(n for n in cls.body if isinstance(n, ast.FunctionDef) and n.name == "__init__")
+    """branch name -> test expression of that branch of the cascade (locals renamed by role)"""
     out = {}
-    for n in ast.walk(init):
-        if isinstance(n, ast.If):
-            nm = _branch_name(n.test)
-            out.setdefault(nm, n.test)
+    for b in _cascade_ast():
+        out.setdefault(_branch_name(b.test), b.test)
     return out
 
 
 def _call_site(test: ast.AST, name: str) -> str:
-    """'match' or 'search': the branch test must be exactly `self.<name>.<method>(line)`"""
-    t = test
-    if isinstance(t, ast.NamedExpr):
-        t = t.value
+    """'match' or 'search': the branch test must be `self.<name>.<method>(line)`, possibly wrapped
+    in something that keeps its truth value (`is not None`, `bool(...)`, `:=`)"""
+    t = _unwrap_bool(test)
     ok = (isinstance(t, ast.Call) and isinstance(t.func, ast.Attribute) and t.func.attr in ("match", "search")
           and isinstance(t.func.value, ast.Attribute) and t.func.value.attr == name
           and isinstance(t.func.value.value, ast.Name) and t.func.value.value.id == "self"
@@ -309,175 +570,224 @@ def get_guards() -> list[tuple[str, str, bool, str, str]]:
 # G11: which names are variables of a scope, and what `correlate` removes
 # --------------------------------------------------------------------------
 
-NORM_OPS = ("lower", "upper", "strip", "casefold")
+def _sf():
+    common.import_ford()
+    return importlib.import_module("ford.sourceform")
 
 
-def _sourceform_class(name: str) -> ast.ClassDef:
-    path = common.REPO / "ford" / "sourceform.py"
-    tree = ast.parse(path.read_text())
-    cls = next((n for n in tree.body if isinstance(n, ast.ClassDef) and n.name == name), None)
-    if cls is None:
-        raise ValueError(f"class {name} not found")
-    return cls
+#: attribute keywords a declared entity may carry (the vocabulary the filter is probed with)
+ATTR_VOCABULARY = ("external", "dimension(3)", "allocatable", "pointer", "target", "save", "optional", "intent(in)",
+                   "parameter", "volatile", "asynchronous", "value", "contiguous", "protected", "public", "private",
+                   "intrinsic", "codimension[*]", "bind(c)")
+#: (keyword, normalisation) candidates, most literal first; the first that predicts every probe is taken
+FILTER_CANDIDATES = ((), ("lower",), ("strip",), ("lower", "strip"))
 
 
-def _method(cls: ast.ClassDef, name: str) -> ast.FunctionDef:
-    fn = next((n for n in cls.body if isinstance(n, ast.FunctionDef) and n.name == name), None)
-    if fn is None:
-        raise ValueError(f"{cls.name}.{name} not found")
-    return fn
-
-
-def _norm_ops(expr: ast.AST, var: str) -> list[str]:
-    """`var.lower().strip()` -> ['lower', 'strip'] (application order); `var` -> []"""
-    ops = []
-    e = expr
-    while True:
-        if isinstance(e, ast.Name) and e.id == var:
-            return list(reversed(ops))
-        if (isinstance(e, ast.Call) and isinstance(e.func, ast.Attribute) and not e.args and not e.keywords
-                and e.func.attr in NORM_OPS):
-            ops.append("lower" if e.func.attr == "casefold" else e.func.attr)
-            e = e.func.value
-            continue
-        raise ValueError(f"unsupported attribute normalisation {ast.unparse(expr)}")
-
-
-def _is_attr(node: ast.AST, obj: str, attr: str) -> bool:
-    return (isinstance(node, ast.Attribute) and node.attr == attr
-            and isinstance(node.value, ast.Name) and node.value.id == obj)
+def _apply_ops(ops, a: str) -> str:
+    for o in ops:
+        a = a.lower() if o == "lower" else a.upper() if o == "upper" else a.strip()
+    return a
 
 
 def get_scope_filter() -> tuple[str, list[str]]:
-    """(keyword, normalisation ops) of `self.variables = [v for v in self.variables if <kw> not in
-    [<norm>(attr) for attr in v.attribs]]` in FortranCodeUnit._cleanup.  Accepted spellings of the
-    condition: `K not in [f(a) for a in v.attribs]`, `K not in v.attribs`,
-    `not any(f(a) == K for a in v.attribs)`, `all(f(a) != K for a in v.attribs)`."""
-    fn = _method(_sourceform_class("FortranCodeUnit"), "_cleanup")
-    found = []
-    for n in ast.walk(fn):
-        if not (isinstance(n, ast.Assign) and len(n.targets) == 1 and _is_attr(n.targets[0], "self", "variables")):
-            continue
-        val = n.value
-        if isinstance(val, ast.Call) and isinstance(val.func, ast.Name) and val.func.id == "list" and len(val.args) == 1:
-            val = val.args[0]
-        if not isinstance(val, (ast.ListComp, ast.GeneratorExp)) or len(val.generators) != 1:
-            raise ValueError("FortranCodeUnit._cleanup: `self.variables = ...` is not a single comprehension")
-        g = val.generators[0]
-        if not (isinstance(g.target, ast.Name) and _is_attr(g.iter, "self", "variables") and len(g.ifs) == 1
-                and isinstance(val.elt, ast.Name) and val.elt.id == g.target.id):
-            raise ValueError("FortranCodeUnit._cleanup: unexpected shape of the variables filter")
-        found.append((g.target.id, g.ifs[0]))
-    if len(found) != 1:
-        raise ValueError(f"FortranCodeUnit._cleanup: {len(found)} filters of self.variables (expected 1)")
-    v, cond = found[0]
+    """(keyword, normalisation ops) such that `FortranCodeUnit._cleanup` drops from `self.variables`
+    exactly the entities one of whose attributes, normalised, equals the keyword - derived by
+    PROBING the real `_cleanup` on a stub scope whose variables carry one attribute spelling each
+    (so an inline comprehension, a helper function, `any(...)`, a loop ... read the same)."""
+    sf = _sf()
 
-    def comp_over_attribs(c):
-        """(element expression, loop variable) of a comprehension over `v.attribs`"""
-        if (isinstance(c, (ast.ListComp, ast.GeneratorExp, ast.SetComp)) and len(c.generators) == 1
-                and not c.generators[0].ifs and isinstance(c.generators[0].target, ast.Name)
-                and _is_attr(c.generators[0].iter, v, "attribs")):
-            return c.elt, c.generators[0].target.id
-        return None
+    class Scope:                                   # what `_cleanup` reads besides `variables`
+        def __init__(self, variables):
+            self.variables = variables
+            self.routines, self.interfaces, self.types = [], [], []
 
-    # K not in X
-    if (isinstance(cond, ast.Compare) and len(cond.ops) == 1 and isinstance(cond.ops[0], ast.NotIn)
-            and isinstance(cond.left, ast.Constant) and isinstance(cond.left.value, str)):
-        kw, x = cond.left.value, cond.comparators[0]
-        if _is_attr(x, v, "attribs"):
-            return kw, []
-        co = comp_over_attribs(x)
-        if co:
-            return kw, _norm_ops(co[0], co[1])
-    # not any(f(a) == K for a in v.attribs)  /  all(f(a) != K for a in v.attribs)
-    inner, want = None, None
-    if (isinstance(cond, ast.UnaryOp) and isinstance(cond.op, ast.Not) and isinstance(cond.operand, ast.Call)
-            and isinstance(cond.operand.func, ast.Name) and cond.operand.func.id == "any" and len(cond.operand.args) == 1):
-        inner, want = cond.operand.args[0], ast.Eq
-    elif (isinstance(cond, ast.Call) and isinstance(cond.func, ast.Name) and cond.func.id == "all" and len(cond.args) == 1):
-        inner, want = cond.args[0], ast.NotEq
-    if inner is not None:
-        co = comp_over_attribs(inner)
-        if co and isinstance(co[0], ast.Compare) and len(co[0].ops) == 1 and isinstance(co[0].ops[0], want):
-            a, b = co[0].left, co[0].comparators[0]
-            if isinstance(a, ast.Constant):
-                a, b = b, a
-            if isinstance(b, ast.Constant) and isinstance(b.value, str):
-                return b.value, _norm_ops(a, co[1])
-    raise ValueError(f"FortranCodeUnit._cleanup: unsupported condition of the variables filter: {ast.unparse(cond)}")
+        def process_attribs(self):
+            pass
+
+        def __getattr__(self, name):               # anything else: an empty collection
+            if name.startswith("__"):
+                raise AttributeError(name)
+            return []
+
+    class Var:                                     # a declared entity: name, type, attributes
+        def __init__(self, name, attribs):
+            self.name, self.attribs, self.vartype, self.parent = name, attribs, "real", None
+
+        def __getattr__(self, name):
+            if name.startswith("__"):
+                raise AttributeError(name)
+            return None
+
+    def kept(attr_lists) -> list[bool]:
+        vs = [Var(f"v{k}", list(a)) for k, a in enumerate(attr_lists)]
+        sc = Scope(list(vs))
+        sf.FortranCodeUnit._cleanup(sc)
+        rest = list(sc.variables)
+        if [v for v in vs if any(v is r for r in rest)] != rest:
+            raise ValueError("FortranCodeUnit._cleanup: the filter of self.variables reorders or invents entities")
+        return [any(v is r for r in rest) for v in vs]
+
+    plain = kept([[a] for a in ATTR_VOCABULARY] + [[]])
+    if not plain[-1]:
+        raise ValueError("FortranCodeUnit._cleanup drops an entity without attributes")
+    dropped = [a for a, k in zip(ATTR_VOCABULARY, plain) if not k]
+    upper = kept([[a.upper()] for a in ATTR_VOCABULARY])
+    dropped_u = [a for a, k in zip(ATTR_VOCABULARY, upper) if not k]
+    kws = sorted(set(dropped) | set(dropped_u))
+    if len(kws) != 1:
+        raise ValueError(f"FortranCodeUnit._cleanup: the variables filter drops the attributes {kws} (expected exactly one keyword)")
+    kw = kws[0]
+    mixed = "".join(c.upper() if i % 2 else c for i, c in enumerate(kw))
+    spellings = [kw, kw.upper(), kw.capitalize(), mixed, " " + kw, kw + " ", " " + kw.upper() + " ", "\t" + kw,
+                 kw + "x", kw[:-1], kw + "(x)", "x" + kw]
+    seen = [not k for k in kept([[a] for a in spellings])]
+    # an entity is dropped when ANY of its attributes is the keyword, wherever it stands
+    combos = [["save", kw.upper()], [kw.capitalize(), "target"], ["save", "target"], ["dimension(3)", mixed, "save"]]
+    seen_c = [not k for k in kept(combos)]
+    for ops in FILTER_CANDIDATES:
+        pred = [_apply_ops(ops, a) == kw for a in spellings]
+        pred_c = [any(_apply_ops(ops, a) == kw for a in c) for c in combos]
+        if pred == seen and pred_c == seen_c:
+            return kw, list(ops)
+    raise ValueError("FortranCodeUnit._cleanup: the variables filter is not `normalise(attribute) == keyword` for a known "
+                     f"normalisation: dropped {[a for a, d in zip(spellings, seen) if d]!r}")
 
 
 LABEL_SOURCES = ("all_procs", "boundprocs", "all_types", "extends", "all_vars", "args", "retvar", "variables")
 
 
 def get_label_order() -> list[str]:
-    """the order in which `get_label_item` (inside `_find_chain_item`) merges the tables of a
-    context into `labels`; every top-level statement between `labels = {}` and the `return`
-    must mention exactly one known source"""
-    fn = _method(_sourceform_class("FortranCodeUnit"), "_find_chain_item")
-    gli = next((n for n in fn.body if isinstance(n, ast.FunctionDef) and n.name == "get_label_item"), None)
-    if gli is None:
-        raise ValueError("_find_chain_item.get_label_item not found")
-    order = []
-    started = False
-    for st in gli.body:
-        src = ast.unparse(st)
-        if isinstance(st, ast.Expr) and isinstance(st.value, ast.Constant):
-            continue  # docstring
-        if not started:
-            if src.replace(" ", "") == "labels={}":
-                started = True
-                continue
-            raise ValueError(f"get_label_item: unexpected statement before `labels = {{}}`: {src}")
-        if isinstance(st, ast.Return):
-            if src.replace(" ", "") not in ("returnlabels.get(label,None)", "returnlabels.get(label)"):
-                raise ValueError(f"get_label_item: unexpected return {src}")
-            break
-        if "labels" not in src:
-            if isinstance(st, ast.Assign) and src.startswith("extend_type"):
-                continue
-            raise ValueError(f"get_label_item: statement does not touch `labels`: {src}")
-        hits = [k for k in LABEL_SOURCES
-                if re.search(r"['\"]%s['\"]|\b%s\b" % (k, k), src) and (k != "extends" or "extend" in src)]
-        if len(hits) != 1:
-            raise ValueError(f"get_label_item: cannot attribute statement to one name table: {src} -> {hits}")
-        order.append(hits[0])
-    else:
-        raise ValueError("get_label_item: no return statement")
-    if sorted(order) != sorted(set(order)):
-        raise ValueError(f"get_label_item: a name table is merged twice: {order}")
+    """the order in which `_find_chain_item` merges the name tables of a scope (the later wins) -
+    derived by PROBING the real method on stub scopes that know the same label in one or two tables."""
+    sf = _sf()
+
+    class Ent:
+        def __init__(self, tag):
+            self.name, self.tag, self.extends = "Zq", tag, None
+
+    class Ctx:
+        pass
+
+    def winner(sources):
+        ctx = Ctx()
+        for src in sources:
+            e = Ent(src)
+            if src in ("all_procs", "all_types", "all_vars"):
+                setattr(ctx, src, {"zq": e})
+            elif src in ("boundprocs", "args", "variables"):
+                setattr(ctx, src, [e])
+            else:                                   # extends, retvar
+                setattr(ctx, src, e)
+        got = sf.FortranCodeUnit._find_chain_item(ctx, ["zq"])
+        return getattr(got, "tag", None)
+
+    if winner([]) is not None:
+        raise ValueError("_find_chain_item finds a label in an empty scope")
+    consulted = [src for src in LABEL_SOURCES if winner([src]) == src]
     for need in ("all_procs", "all_types", "all_vars", "variables"):
-        if need not in order:
+        if need not in consulted:
             raise ValueError(f"get_label_item: name table {need} is no longer consulted")
+    wins = {src: 0 for src in consulted}
+    for i, a in enumerate(consulted):
+        for b in consulted[i + 1:]:
+            w, w2 = winner([a, b]), winner([b, a])
+            if w != w2 or w not in (a, b):
+                raise ValueError(f"get_label_item: no stable precedence between {a} and {b}: {w}, {w2}")
+            wins[w] += 1
+    order = sorted(consulted, key=lambda src: wins[src])
+    if sorted(wins.values()) != list(range(len(consulted))) or winner(consulted) != order[-1]:
+        raise ValueError(f"get_label_item: the name tables are not merged in one linear order: {wins}")
+    # the order must explain every triple too (a later table wins whatever stands in between)
+    for i in range(len(order) - 2):
+        if winner(order[i:i + 3]) != order[i + 2]:
+            raise ValueError(f"get_label_item: precedence of {order[i:i + 3]} is not linear")
     return order
 
 
+REMOVED_PROBE = """\
+module zq_m
+  implicit none
+  type :: zq_t
+    integer :: c
+  contains
+    procedure :: zq_b => zq_bimpl
+  end type zq_t
+  interface zq_g
+    module procedure zq_f
+  end interface zq_g
+  real :: zq_mv(3)
+contains
+  function zq_f(p) result(r)
+    real :: p, r
+    r = p
+  end function zq_f
+  subroutine zq_s(p)
+    real :: p
+  end subroutine zq_s
+  subroutine zq_bimpl(self)
+    class(zq_t) :: self
+  end subroutine zq_bimpl
+  subroutine zq_unit(zq_d)
+    real :: zq_d(3)
+    real :: zq_v(3), x
+    type(zq_t) :: o
+    interface
+      function zq_e(p) result(r)
+        real :: p, r
+      end function zq_e
+    end interface
+    x = zq_v(1) + zq_d(1) + zq_mv(1) + zq_f(1.0) + zq_g(1.0) + zq_e(1.0) + zq_u(1.0)
+    o = zq_t(1)
+    call zq_s(x)
+    call o%zq_b()
+  end subroutine zq_unit
+end module zq_m
+"""
+#: what each name of the probe source IS, by the declaration written above (not by the parser's view),
+#: as the class FORD represents such an entity with
+PROBE_ENTITIES = {"zq_v": "FortranVariable", "zq_d": "FortranVariable", "zq_mv": "FortranVariable", "zq_t": "FortranType",
+                  "zq_f": "FortranFunction", "zq_s": "FortranSubroutine", "zq_g": "FortranInterface",
+                  "zq_e": "FortranInterface", "zq_b": "FortranBoundProcedure", "zq_u": None}
+#: canonical order of the classes in the generated list
+KIND_ORDER = ("FortranVariable", "FortranType")
+
+
 def get_removed_kinds() -> list[str]:
-    """class names in `if not isinstance(item, (...))` of the `for call in self.calls` loop of
-    FortranCodeUnit.correlate"""
-    fn = _method(_sourceform_class("FortranCodeUnit"), "correlate")
-    loops = [n for n in ast.walk(fn) if isinstance(n, ast.For) and _is_attr(n.iter, "self", "calls")]
-    if len(loops) != 1:
-        raise ValueError(f"correlate: {len(loops)} loops over self.calls (expected 1)")
-    tests = [n for n in ast.walk(loops[0]) if isinstance(n, ast.If)]
-    out = None
-    for t in tests:
-        c = t.test
-        if (isinstance(c, ast.UnaryOp) and isinstance(c.op, ast.Not) and isinstance(c.operand, ast.Call)
-                and isinstance(c.operand.func, ast.Name) and c.operand.func.id == "isinstance"
-                and len(c.operand.args) == 2 and isinstance(c.operand.args[0], ast.Name)):
-            k = c.operand.args[1]
-            elts = k.elts if isinstance(k, ast.Tuple) else [k]
-            if not all(isinstance(e, ast.Name) for e in elts):
-                raise ValueError("correlate: isinstance test with non-name classes")
-            if out is not None:
-                raise ValueError("correlate: more than one isinstance filter in the calls loop")
-            out = [e.id for e in elts]
-            if "tmplst.append" not in ast.unparse(t.body[0]) or t.orelse:
-                raise ValueError("correlate: the isinstance filter no longer guards `tmplst.append(item)`")
-    if out is None:
-        raise ValueError("correlate: `if not isinstance(item, (...))` filter of the calls loop not found")
-    return out
+    """the classes whose instances `correlate` removes from `unit.calls` - derived by PROBING a real
+    `Project` on a small source whose unit references one entity of every kind a recorded name can
+    resolve to (local / dummy / module variable, derived type, function, subroutine, generic and
+    specific interface, type-bound procedure, unknown name): the kinds whose references are gone
+    after `correlate()`."""
+    import tempfile
+    sf = _sf()
+    fp = importlib.import_module("ford.fortran_project")
+    st = importlib.import_module("ford.settings")
+    with tempfile.TemporaryDirectory(prefix="c08probe") as d:
+        (Path(d) / "zq.f90").write_text(REMOVED_PROBE)
+        sf.namelist = sf.NameSelector()
+        try:
+            with common.quiet():
+                proj = fp.Project(st.ProjectSettings(src_dir=[Path(d)], preprocess=False, dbg=False))
+                unit = next((q for m in proj.modules for q in m.subroutines if q.name.lower() == "zq_unit"), None)
+                if unit is None:
+                    raise ValueError("removed-kinds probe: the probe unit was not parsed")
+                before = [str(c[-1]).lower() for c in unit.calls]
+                proj.correlate()
+                after = [(c if isinstance(c, str) else str(getattr(c, "name", "?"))).lower() for c in unit.calls]
+        finally:
+            sf.namelist = sf.NameSelector()
+    if sorted(before) != sorted(PROBE_ENTITIES):
+        raise ValueError(f"removed-kinds probe: the probe references were recorded as {before}")
+    verdict = {}
+    for n, kind in PROBE_ENTITIES.items():
+        verdict.setdefault(kind, set()).add(n in after)
+    mixed = [k for k, v in verdict.items() if len(v) != 1]
+    if mixed:
+        raise ValueError(f"removed-kinds probe: references to entities of kind {mixed} are partly kept, partly removed: {after}")
+    if verdict[None] != {True}:
+        raise ValueError("removed-kinds probe: a reference to an unknown name is not kept")
+    removed = [k for k, v in verdict.items() if k and v == {False}]
+    return [k for k in KIND_ORDER if k in removed] + sorted(k for k in removed if k not in KIND_ORDER)
 
 
 def lean_chars(s: str) -> str:
@@ -490,11 +800,11 @@ def render(intr: list[str], casc: list[tuple[str, str]], guards, scope=None) -> 
     lines = ["/- GENERATED by translate/c08.py from ford/intrinsics.py and ford/sourceform.py - do not edit -/",
              "import FordModel.CallsRegex",
              "namespace Ford.Generated.C08", "",
-             "/-- `ford.intrinsics.INTRINSICS` -/",
-             "def intrinsics : List String := ["]
-    for i in range(0, len(intr), 6):
-        chunk = ", ".join(lean_str(x) for x in intr[i:i + 6])
-        lines.append("  " + chunk + ("," if i + 6 < len(intr) else ""))
+             "/-- the names `_add_procedure_calls` never records (probed on the real method; one-word names, sorted;",
+             "    character lists: string literals are byte arrays and slow to compare in the kernel) -/",
+             "def intrinsics : List (List Char) := ["]
+    for i, x in enumerate(intr):
+        lines.append("  " + lean_chars(x) + ("," if i + 1 < len(intr) else ""))
     lines += ["]", "",
               "/-- the `if/elif` cascade of `FortranContainer.__init__`: (branch, extra guard), in source order -/",
               "def cascade : List (String × String) := ["]
@@ -502,9 +812,8 @@ def render(intr: list[str], casc: list[tuple[str, str]], guards, scope=None) -> 
         lines.append(f"  ({lean_str(n)}, {lean_str(g)})" + ("," if k + 1 < len(casc) else ""))
     lines += ["]", ""]
     for name, method, ci, term, src in guards:
-        if "-/" in src:
-            raise ValueError("pattern source cannot be quoted in a Lean comment")
-        lines += [f"/-- parse tree of `FortranContainer.{name}` = `{src.strip()}`" + (" (IGNORECASE)" if ci else "") + " -/",
+        # (the pattern source is not quoted: a re-layout of the same regex must not change this file)
+        lines += [f"/-- parse tree (`re._parser`) of the compiled `FortranContainer.{name}`" + (" (IGNORECASE)" if ci else "") + " -/",
                   f"def rx{name} : Ford.Rx.Pattern := {{ ci := {'true' if ci else 'false'}, body :=",
                   f"  {term} }}", ""]
     lines += ["/-- the interpreted guards: (branch, used with `.search` (else `.match`), pattern) -/",
@@ -525,13 +834,13 @@ def render(intr: list[str], casc: list[tuple[str, str]], guards, scope=None) -> 
     return "\n".join(lines)
 
 
-def translate() -> dict:
-    intr = get_intrinsics()
+def translate(extra_candidates=()) -> dict:
+    intr, intr_info = get_intrinsics(extra_candidates)
     casc = get_cascade()
     guards = get_guards()
     scope = (get_scope_filter(), get_label_order(), get_removed_kinds())
     common.write_if_changed(OUT, render(intr, casc, guards, scope))
-    return {"intrinsics": len(intr), "cascade": casc,
+    return {"intrinsics": len(intr), "never_recorded": intr, "intrinsics_probe": intr_info, "cascade": casc,
             "guards": [{"branch": g[0], "method": g[1], "ignorecase": g[2], "pattern": g[4]} for g in guards],
             "scope": {"filter": {"keyword": scope[0][0], "normalisation": scope[0][1]},
                       "label_order": scope[1], "removed_kinds": scope[2]}}
